@@ -980,6 +980,10 @@ fn add_jitter(delay: &u64) -> Duration {
     Duration::from_millis(delay.saturating_sub(max_jitter / 2).saturating_add(jitter))
 }
 
+#[cfg(kani)]
+#[path = "/verif/kani/iroh_dns/dns.rs"]
+mod verif_kani;
+
 #[cfg(test)]
 pub(crate) mod tests {
     use std::sync::atomic::AtomicUsize;
